@@ -218,6 +218,25 @@ class SymDate:
 
     __hash__ = None  # type: ignore
 
+    # ordering at whole-second resolution (all dates in the harnesses are whole seconds)
+    def _ord(self, o, f):
+        s = _secs_of(o)
+        if s is None:
+            return NotImplemented
+        return f(self.secs, s)
+
+    def __lt__(self, o):
+        return self._ord(o, lambda a, b: a < b)
+
+    def __le__(self, o):
+        return self._ord(o, lambda a, b: a <= b)
+
+    def __gt__(self, o):
+        return self._ord(o, lambda a, b: a > b)
+
+    def __ge__(self, o):
+        return self._ord(o, lambda a, b: a >= b)
+
     def __repr__(self) -> str:
         return "<SymDate>"
 
